@@ -608,6 +608,8 @@ func (e *c05Env) eval(t c05Task) c05Out {
 		return e.evalStmt(r, t)
 	case "pos":
 		return e.evalPos(r, t)
+	case "retry":
+		return e.evalRetry(r, t)
 	case "crash":
 		return e.evalCrash(r, t)
 	case "reader":
@@ -678,6 +680,64 @@ func (e *c05Env) evalStmt(r *c05Req, t c05Task) c05Out {
 		out.Sig = sig
 		out.What = fmt.Sprintf("%s, %s at statement %d (%s): %s; reported: %s; diff to before: %s", r.ID, t.Kind, t.K, class, what, c05Short(desc), c05Short(refsem.DiffMultiset(got, r.before, false)))
 	}
+	return out
+}
+
+var c05Fresh atomic.Int64
+
+// evalRetry: a write that introduces names the database has never seen fails at statement k (the
+// whole request is rolled back), the client repeats the very same write, which succeeds: the
+// relationships must now be listed with exactly the strings that were written (nothing the failed
+// attempt did - e.g. name mappings it created inside the rolled-back transaction - may be assumed
+// to exist).
+func (e *c05Env) evalRetry(r *c05Req, t c05Task) c05Out {
+	s := e.w.Server
+	n := c05Fresh.Add(1)
+	obj, sub, setObj := fmt.Sprintf("fresh-object-%d-%d", e.id, n), fmt.Sprintf("fresh-subject-%d-%d", e.id, n), fmt.Sprintf("fresh-set-%d-%d", e.id, n)
+	ts := []*ketoapi.RelationTuple{axID("n1", obj, "vr", sub), axSet("n1", obj, "vr", "n1", setObj, "vr")}
+	write := func() (bool, string) {
+		switch r.Kind {
+		case "rest-create":
+			resp := s.Client().Create(ts[0])
+			return resp.OK(), resp.String()
+		case "rest-patch":
+			resp := s.Client().PatchRaw(c05PatchBody(ts, nil, -1, ""))
+			return resp.OK(), resp.String()
+		default:
+			_, err := s.Client().GTransact(c05Deltas(ts, nil, -1, ""))
+			return err == nil, fmt.Sprint(err)
+		}
+	}
+	s.Settle()
+	hit, _ := c05Arm(s.Tap, t.K, t.Kind)
+	ok1, d1 := write()
+	c05Disarm(s.Tap)
+	s.Settle()
+	ok2, d2 := true, ""
+	if !ok1 {
+		// a failure reported AFTER the commit was executed is a lost acknowledgement: the write is there
+		// already and a client that lists first would not repeat it
+		if pre := axListREST(s.Client(), &ketoapi.RelationQuery{Namespace: axS("n1"), Object: axS(obj)}, 0); len(pre.Multiset) == 0 {
+			ok2, d2 = write()
+		}
+	}
+	want := ts
+	if r.Kind == "rest-create" {
+		want = ts[:1]
+	}
+	out := c05Out{Hit: hit.Load(), Detail: map[string]any{"first_attempt_ok": ok1, "first": c05Short(d1), "second": c05Short(d2)}}
+	if !ok2 {
+		out.Sig = "retry-after-rollback:second-attempt-fails:" + r.Kind
+		out.What = fmt.Sprintf("%s with never-seen names: after the attempt that failed at statement %d (%s) the same write is refused: %s", r.Kind, t.K, t.Kind, c05Short(d2))
+		return out
+	}
+	l := axListREST(s.Client(), &ketoapi.RelationQuery{Namespace: axS("n1"), Object: axS(obj)}, 0)
+	if d := refsem.DiffMultiset(l.Multiset, refsem.MultisetOf(want), false); d != "" || l.Err != "" {
+		// (if the first attempt was acknowledged despite the injected failure, the relationships are there once)
+		out.Sig = "retry-after-rollback:names-not-listed:" + r.Kind
+		out.What = fmt.Sprintf("%s with never-seen names, attempt 1 failing at statement %d (%s), attempt 2 accepted: listing by the written object name differs from what was written: %s %s", r.Kind, t.K, t.Kind, c05Short(d), l.Err)
+	}
+	s.Client().DeleteQuery(&ketoapi.RelationQuery{Namespace: axS("n1"), Object: axS(obj)})
 	return out
 }
 
@@ -1209,6 +1269,17 @@ func TestC05(t *testing.T) {
 		for k := 1; k <= h.nOf(r.ID); k++ {
 			for _, kind := range []string{"fail-before", "fail-after", "drop-connection"} {
 				tasks = append(tasks, c05Task{Part: "stmt", Req: r.ID, K: k, Kind: kind})
+			}
+		}
+	}
+	runTasks(tasks)
+
+	// (a') retry after a rolled-back first use of new names
+	tasks = nil
+	for _, id := range []string{"rest-create", "rest-patch/I2/D0", "grpc-transact/I2/D0"} {
+		for k := 1; k <= 6; k++ {
+			for _, kind := range []string{"fail-before", "fail-after"} {
+				tasks = append(tasks, c05Task{Part: "retry", Req: id, K: k, Kind: kind})
 			}
 		}
 	}
